@@ -12,7 +12,9 @@ the model prints the constant suffix `tol-ok`; so a float outside tolerance is a
 """
 import inspect
 import itertools
+import json
 import math
+import os
 import sys
 import time
 from fractions import Fraction as F
@@ -612,16 +614,171 @@ PLANTED_ROOT_GATE = (
     'n = p*q, p and q random primes of `bits` bits. '
     'univariate_modp(f, 2^ub, k), k in {2,3}, 64 <= bits <= 1024, f in {p0 + x (high bits known), '
     'p + rx - x (negative coefficient), x*2^l + (p mod 2^l) (low bits known)} and the cubic '
-    'p - rx^3 + x^3 with bound 2^max(2, ub//4): gated iff ub <= floor((k-1)*bits/(2k-1)) - 2 '
+    'p - rx^3 + x^3 with bound 2^max(2, ub//4): inside iff ub <= floor((k-1)*bits/(2k-1)) - 2 '
     '(the determinant bound of the 2k-dimensional lattice is X < p^((k-1)/(2k-1)); 2 bits of margin). '
-    'multivariate_modp(p0 + x1*2^l + x2, [2^u1, 2^u2], m), |u1-u2| <= 1, 64 <= bits <= 1024: gated iff '
+    'multivariate_modp(p0 + x1*2^l + x2, [2^u1, 2^u2], m), |u1-u2| <= 1, 64 <= bits <= 1024: inside iff '
     '(m = 3 and u1+u2 <= floor(3*bits/16) - 3) or (m = 4 and u1+u2 <= floor(bits/4) - 3). '
-    'multivariate_modn((p0+x1)(q0+x2), [2^u1, 2^u2], 1), |u1-u2| <= 1, 64 <= bits <= 256: gated iff '
+    'multivariate_modn((p0+x1)(q0+x2), [2^u1, 2^u2], 1), |u1-u2| <= 1, 64 <= bits <= 256: inside iff '
     'u1+u2 <= floor(2*bits/3) - 10. '
-    'Measured before gating (harness-independent seeds, real LLL / solve_right / sympy): every '
-    'quick-tier gated family 2000/2000 found, every thorough-tier gated family 500/500 (or 2000/2000) '
-    'found (harness/measure_small_roots.py); at margin 0 or 1 bit success drops to 52..99.8 %, one bit beyond to 0..85 %, '
-    'so the region is sharp. A miss inside the region is reported as a failing input.')
+    'RECORDED MEASUREMENT (review-2 M7): harness/corpus/c19_gate_measurement.json, written by '
+    'harness/measure_c19_gate.py (real LLL / solve_right / sympy, instances built by the same functions as '
+    'here, seeds independent of VERIF_SEED, 8 workers, 27 min): every family of the tables below that lies inside the '
+    'region - 20000 instances for each family AT THE EDGE of the region (the largest bound the formula admits for '
+    'its bits / k / m), 4000 for the families further inside, 2000 for each 512- and 1024-bit family (which nobody '
+    'had measured): 691 989 of 692 000 found. All 40 univariate families (incl. 512 / 1024 bits): no miss. 11 misses: '
+    'multivariate_modp m=3 64-bit, 4+5 unknown bits: 8 of 20000; multivariate_modn 128-bit 37+38 bits: 2 of 20000; '
+    '96-bit 27+27 bits: 1 of 20000 (replays in the file). These are NOT margin failures - one or two bits further '
+    'inside the miss rate is the same (margin_probe in the file: modp 64-bit 4+4: 4 of 20000, 3+4: 3 of 20000; modn '
+    '128-bit 37+37: 2 of 20000; a missed instance stays missed with a smaller bound and is found when the root '
+    'changes) - so the gate is not repaired by moving its edge; the earlier "2000/2000, 500/500" was too small to '
+    'see a rate of 1e-4. '
+    'What a miss of a family inside the region means (no gate may be seed-dependent on the unchanged tree): '
+    '(1) FIXED CORPUS - per family that has a measurement the instances built from '
+    'random.Random("c19-gate-corpus-v1/<family>/<i>"), i < 6 (2 in the quick tier), independent of VERIF_SEED; the '
+    'finders are deterministic and every member was found on the unchanged tree (corpus_found in the file, with a '
+    'digest): a miss is a VIOLATION, never a false alarm. '
+    '(2) FRESH instances (VERIF_SEED-dependent, same families and counts): k misses in N measured instances bound '
+    'the miss rate of a family by poisson_upper(k)/N (95 %; 3/N for k = 0) only, so ONE fresh miss in a run is not '
+    'distinguishable from the unchanged tree at the 1e-4 level: it is recorded with its replay in '
+    'extra.planted_root_gate.fresh and in the notes; the run is a VIOLATION when the number of fresh '
+    'misses reaches the smallest t with P[Poisson(sum of the bounds over the fresh gated instances) >= t] < 1e-4 '
+    '(t = 2 in the quick tier, 3 in the thorough tier), i.e. when the misses are inconsistent with the recorded '
+    'measurement. Families whose bound exceeds 5e-4 (modp m=3 64-bit: 14.4/20000; every 512- and 1024-bit family: 3/2000) '
+    'have their fresh instances as statistics only - their fixed corpus stays gated. '
+    'At margin 0 or 1 bit success drops to 52..99.8 %, one bit beyond to 0..85 % (harness/measure_small_roots.py): '
+    'the region is sharp; families outside it are statistics only.')
+
+# (bits, ub, k) of the univariate families; (bits, (u1, u2), m) of the bivariate ones.  Which of them are
+# inside the region is decided by uni_gate / modp_gate / modn_gate, which of those are gated by the recorded
+# measurement (gate_entry).  harness/measure_c19_gate.py measures exactly these tables.
+UNI_SIZES = [(64, 19, 2), (64, 20, 2), (64, 23, 3), (64, 24, 3), (96, 30, 2), (128, 40, 2),
+             (128, 49, 3), (128, 50, 3), (256, 100, 3), (64, 21, 2), (128, 51, 3),
+             (64, 31, 3), (128, 62, 2)]
+UNI_SIZES_THOROUGH = [(512, 200, 3), (512, 202, 3), (1024, 400, 3), (1024, 407, 3), (1024, 480, 3)]
+UNI_SUBFAMILIES = ('high', 'neg', 'low', 'deg3')
+MODP_FAMS = [(128, (8, 8), 3), (128, (10, 10), 3), (128, (10, 11), 3), (64, (4, 5), 3),
+             (128, (14, 14), 4), (128, (12, 12), 3), (128, (13, 13), 3)]
+MODP_FAMS_THOROUGH = [(256, (22, 23), 3), (128, (14, 15), 4), (256, (24, 24), 4), (512, (50, 50), 4),
+                      (1024, (120, 120), 4)]
+MODN_FAMS = [(64, (16, 16), 1), (96, (27, 27), 1), (128, (37, 38), 1), (64, (20, 20), 1),
+             (128, (40, 40), 1), (64, (30, 30), 1)]
+MODN_FAMS_THOROUGH = [(256, (80, 80), 1), (64, (24, 24), 2), (512, (170, 170), 1), (1024, (340, 340), 1)]
+GATE_MEASUREMENT_FILE = os.path.join(os.path.dirname(os.path.dirname(os.path.abspath(__file__))), 'corpus',
+                                     'c19_gate_measurement.json')
+GATE_CORPUS_SEED = 'c19-gate-corpus-v1'
+_GATE_MEASUREMENT = None
+
+
+def uni_family(sub, bits, ub, k):
+  return 'uni-%s-k%d-%dbit-ub%d' % (sub, k, bits, ub)
+
+
+def modp_family(bits, u1, u2, m):
+  return 'modp-bivariate-m%d-%dbit-unknown-%d' % (m, bits, u1 + u2)
+
+
+def modn_family(bits, u1, u2, m):
+  return 'modn-bivariate-m%d-%dbit-unknown-%d' % (m, bits, u1 + u2)
+
+
+def gate_measurement():
+  global _GATE_MEASUREMENT
+  if _GATE_MEASUREMENT is None:
+    try:
+      _GATE_MEASUREMENT = json.load(open(GATE_MEASUREMENT_FILE))
+    except Exception:  # noqa  (no file: nothing is gated, everything is a statistic)
+      _GATE_MEASUREMENT = dict(families={})
+  return _GATE_MEASUREMENT
+
+
+def gate_entry(family):
+  """the recorded measurement of exactly this family if it supports gating (>= 2000 measured instances, every member
+  of its fixed corpus found on the unchanged tree), else None (the family is a statistic)."""
+  e = gate_measurement().get('families', {}).get(family)
+  if e and e.get('instances', 0) >= 2000 and e.get('found', 0) + e.get('misses', 0) == e.get('instances') \
+      and e.get('corpus_instances', 0) > 0 and e.get('corpus_found') == e.get('corpus_instances'):
+    return e
+  return None
+
+
+def poisson_upper(k, conf=0.95):
+  """mu with P[Poisson(mu) <= k] = 1 - conf (3.0 for k = 0)."""
+  lo, hi = 0.0, 10.0 + 3 * k
+  for _ in range(80):
+    mu = (lo + hi) / 2
+    term = cdf = math.exp(-mu)
+    for i in range(1, k + 1):
+      term *= mu / i
+      cdf += term
+    lo, hi = (mu, hi) if cdf > 1 - conf else (lo, mu)
+  return hi
+
+
+FRESH_RATE_CAP = 5e-4
+
+
+def fresh_rate(family):
+  """95 % upper bound of the miss rate of a FRESH instance of a gated family, from the recorded measurement
+  (k misses in N instances: poisson_upper(k)/N, 3/N for k = 0); None when the family is not gated or the bound
+  exceeds FRESH_RATE_CAP (then fresh instances of the family are statistics only; its fixed corpus stays gated)."""
+  e = gate_entry(family)
+  if e is None:
+    return None
+  r = poisson_upper(int(e.get('misses', 0))) / e['instances']
+  return r if r <= FRESH_RATE_CAP else None
+
+
+def uni_instances(rng, bits, ub, k, sympy, x):
+  """the four univariate planted-root instances of one key pair: (sub-family, f, bound, planted, p, q, n)."""
+  p, q = rprime(rng, bits), rprime(rng, bits)
+  n = p * q
+  bnd = 2 ** ub
+  out = []
+  p0 = (p >> ub) << ub
+  out.append(('high', sympy.Poly(p0 + x, modulus=n), bnd, p - p0, p, q, n))        # high bits known
+  rx = rng.randrange(1, bnd)
+  out.append(('neg', sympy.Poly(p + rx - x, modulus=n), bnd, rx, p, q, n))         # negative coefficient
+  l = bits - ub
+  out.append(('low', sympy.Poly(x * 2 ** l + p % 2 ** l, modulus=n), bnd, p >> l, p, q, n))   # low bits known
+  ub3 = max(2, ub // 4)
+  rx = rng.randrange(1, 2 ** ub3)
+  out.append(('deg3', sympy.Poly(p - rx ** 3 + x ** 3, modulus=n), 2 ** ub3, rx, p, q, n))    # higher degree
+  return out
+
+
+def modp_instance(rng, bits, u1, u2, sympy, x1, x2):
+  """(f, bounds, planted, p, q, n): middle bits of p known."""
+  p, q = rprime(rng, bits), rprime(rng, bits)
+  n = p * q
+  known = bits - u1 - u2
+  lx1 = known + u2
+  p0 = ((p >> u2) % 2 ** known) << u2
+  return sympy.Poly(p0 + x1 * 2 ** lx1 + x2, modulus=n), [2 ** u1, 2 ** u2], [p >> lx1, p % 2 ** u2], p, q, n
+
+
+def modn_instance(rng, bits, u1, u2, sympy, x1, x2):
+  """(f, bounds, planted, p, q, n): high bits of both factors known."""
+  p, q = rprime(rng, bits), rprime(rng, bits)
+  n = p * q
+  p0 = (p >> u1) << u1
+  q0 = (q >> u2) << u2
+  return sympy.Poly((p0 + x1) * (q0 + x2), modulus=n), [2 ** u1, 2 ** u2], [p - p0, q - q0], p, q, n
+
+
+def corpus_rng(family, i):
+  import random
+  return random.Random('%s/%s/%d' % (GATE_CORPUS_SEED, family, i))
+
+
+def fresh_miss_threshold(lam):
+  """smallest t >= 1 with P[Poisson(lam) >= t] < 1e-4."""
+  t, term, cdf = 0, math.exp(-lam), 0.0
+  while True:
+    cdf += term
+    t += 1
+    term *= lam / t
+    if 1.0 - cdf < 1e-4:
+      return t
 
 
 def uni_gate(bits, ub, k):
@@ -648,22 +805,27 @@ def corr_small_roots(rep, rng, tier):
   sfx = '_r' if repaired else ''
   rep.extra['small_roots_guard_variant'] = 'repaired' if repaired else 'pinned'
   stats = {}
-  gate = dict(runs=0, misses=[], families=set())
+  gate = dict(runs=0, misses=[], families=set(), fresh_runs=0, fresh_misses=[], lam=0.0)
 
   def stat(fam, ok, gated=False, replay=None):
-    """planted-root bookkeeping.  `gated`: the instance lies in PLANTED_ROOT_GATE (region in
-    which the real finder recovered the planted root in every one of >= 2000 measured
-    instances per family): a miss there is reported as a failing input of the property
-    ("do find the planted root ... below the documented bound with margin"); outside the
-    region the count is statistics only."""
-    a = stats.setdefault(fam + (':gated' if gated else ':stat'), [0, 0])
+    """planted-root bookkeeping.  `gated`: None / False = statistics only (outside PLANTED_ROOT_GATE or no
+    recorded measurement of this family); 'corpus' = member of the fixed corpus of a gated family
+    (deterministic, found on the unchanged tree: a miss is a failing input of "do find the planted root ...
+    below the documented bound with margin"); 'fresh' = VERIF_SEED-dependent instance of a gated family
+    (judged against the recorded measurement at the end of the run, see PLANTED_ROOT_GATE)."""
+    a = stats.setdefault(fam + (':%s' % gated if gated else ':stat'), [0, 0])
     a[1] += 1
     a[0] += 1 if ok else 0
-    if gated:
+    if gated == 'corpus':
       gate['runs'] += 1
       gate['families'].add(fam)
       if not ok:
-        gate['misses'].append(dict(family=fam, **(replay or {})))
+        gate['misses'].append(dict(family=fam, source='fixed corpus', **(replay or {})))
+    elif gated == 'fresh':
+      gate['fresh_runs'] += 1
+      gate['lam'] += fresh_rate(fam)
+      if not ok:
+        gate['fresh_misses'].append(dict(family=fam, source='fresh (VERIF_SEED)', **(replay or {})))
   d9 = []    # accepted candidates that are a root modulo no prime factor of n
 
   bg = Batch('sr.guard_uni')
@@ -718,35 +880,20 @@ def corr_small_roots(rep, rng, tier):
     # gated (margin >= 2 bits below the lattice bound, see PLANTED_ROOT_GATE), margin 0/1
     # (statistics), and beyond the bound (statistics; test file: 400/1024 works with k=3,
     # 480/1024 does not)
-    sizes = [(64, 19, 2), (64, 20, 2), (64, 23, 3), (64, 24, 3), (96, 30, 2), (128, 40, 2),
-             (128, 49, 3), (128, 50, 3), (256, 100, 3), (64, 21, 2), (128, 51, 3),
-             (64, 31, 3), (128, 62, 2)]
-    if tier == 'thorough':
-      sizes += [(512, 200, 3), (512, 202, 3), (1024, 400, 3), (1024, 407, 3), (1024, 480, 3)]
+    sizes = UNI_SIZES + (UNI_SIZES_THOROUGH if tier == 'thorough' else [])
+    reps = 2 if tier == 'quick' else 6
     for bits, ub, k in sizes:
-      for _ in range(2 if tier == 'quick' else 6):
-        p, q = rprime(rng, bits), rprime(rng, bits)
-        n = p * q
-        bnd = 2 ** ub
-        g = uni_gate(bits, ub, k)
-        within = 'k%d-%dbit-ub%d' % (k, bits, ub)
-        # high bits known
-        p0 = (p >> ub) << ub
-        uni_case(sympy.Poly(p0 + x, modulus=n), n, p, q, bnd, k, 'real:high', p - p0,
-                 'uni-high-%s' % within, g)
-        # negative root
-        rx = rng.randrange(1, bnd)
-        uni_case(sympy.Poly(p + rx - x, modulus=n), n, p, q, bnd, k, 'real:neg', rx,
-                 'uni-neg-%s' % within, g)
-        # low bits known
-        l = bits - ub
-        uni_case(sympy.Poly(x * 2 ** l + p % 2 ** l, modulus=n), n, p, q, bnd, k, 'real:low',
-                 p >> l, 'uni-low-%s' % within, g)
-        # higher degree
-        ub3 = max(2, ub // 4)
-        rx = rng.randrange(1, 2 ** ub3)
-        uni_case(sympy.Poly(p - rx ** 3 + x ** 3, modulus=n), n, p, q, 2 ** ub3, k, 'real:deg3', rx,
-                 'uni-deg3-%s' % within, g)
+      inside = uni_gate(bits, ub, k)
+      for src in (('corpus', 'fresh') if inside else ('fresh',)):
+        for i_ in range(reps):
+          r_ = corpus_rng('uni-k%d-%dbit-ub%d' % (k, bits, ub), i_) if src == 'corpus' else rng
+          for sub, f, bnd, planted, p, q, n in uni_instances(r_, bits, ub, k, sympy, x):
+            fam = uni_family(sub, bits, ub, k)
+            e = gate_entry(fam) if inside else None
+            if src == 'corpus' and (e is None or i_ >= e['corpus_instances']):
+              continue
+            uni_case(f, n, p, q, bnd, k, 'real:' + sub, planted, fam,
+                     'corpus' if src == 'corpus' else 'fresh' if (inside and fresh_rate(fam) is not None) else None)
     # --- small moduli, real LLL: garbage candidates (non-linear factors) reach the guard
     primes = list(sympy.primerange(3, 80))
     for _ in range(250 if tier == 'quick' else 2500):
@@ -878,22 +1025,19 @@ def corr_small_roots(rep, rng, tier):
     # never succeed, so it said nothing about "finds the planted root" (noted in evidence).
     # gated: m = 3 / m = 4 with >= 3 bits of margin; (128,(12,12),3) margin 0 and
     # (128,(13,13),3) beyond the bound are statistics.
-    fams = [(128, (8, 8), 3), (128, (10, 10), 3), (128, (10, 11), 3), (64, (4, 5), 3),
-            (128, (14, 14), 4), (128, (12, 12), 3), (128, (13, 13), 3)]
-    if tier == 'thorough':
-      fams += [(256, (22, 23), 3), (128, (14, 15), 4), (256, (24, 24), 4), (512, (50, 50), 4),
-               (1024, (120, 120), 4)]
+    fams = MODP_FAMS + (MODP_FAMS_THOROUGH if tier == 'thorough' else [])
+    reps = 2 if tier == 'quick' else 4
     for bits, (u1, u2), m in fams:
-      for _ in range(2 if tier == 'quick' else 4):
-        p, q = rprime(rng, bits), rprime(rng, bits)
-        n = p * q
-        known = bits - u1 - u2
-        lx1 = known + u2
-        p0 = ((p >> u2) % 2 ** known) << u2
-        f = sympy.Poly(p0 + x1 * 2 ** lx1 + x2, modulus=n)
-        multi_case(f, n, p, q, [2 ** u1, 2 ** u2], m, 'real', [p >> lx1, p % 2 ** u2],
-                   'modp-bivariate-m%d-%dbit-unknown-%d' % (m, bits, u1 + u2),
-                   modp_gate(bits, u1, u2, m))
+      fam = modp_family(bits, u1, u2, m)
+      e = gate_entry(fam) if modp_gate(bits, u1, u2, m) else None
+      for src in (('corpus', 'fresh') if e is not None else ('fresh',)):
+        for i_ in range(reps):
+          if src == 'corpus' and i_ >= e['corpus_instances']:
+            continue
+          r_ = corpus_rng(fam, i_) if src == 'corpus' else rng
+          f, bounds, planted, p, q, n = modp_instance(r_, bits, u1, u2, sympy, x1, x2)
+          multi_case(f, n, p, q, bounds, m, 'real', planted, fam,
+                     'corpus' if src == 'corpus' else 'fresh' if (e is not None and fresh_rate(fam) is not None) else None)
     # adversarial solve_right: first learn which solution index feeds which variable
     for _ in range(6 if tier == 'quick' else 40):
       bits = rng.choice([32, 64])
@@ -981,20 +1125,18 @@ def corr_small_roots(rep, rng, tier):
   try:
     # gated: m = 1, u1 + u2 <= 2*bits/3 - 10; the others are statistics (margin < 10 bits or
     # beyond the bound bits/3 per unknown)
-    fams = [(64, (16, 16), 1), (96, (27, 27), 1), (128, (37, 38), 1), (64, (20, 20), 1),
-            (128, (40, 40), 1), (64, (30, 30), 1)]
-    if tier == 'thorough':
-      fams += [(256, (80, 80), 1), (64, (24, 24), 2), (512, (170, 170), 1), (1024, (340, 340), 1)]
+    fams = MODN_FAMS + (MODN_FAMS_THOROUGH if tier == 'thorough' else [])
+    reps = 2 if tier == 'quick' else 5
     for bits, (u1, u2), m in fams:
-      for _ in range(2 if tier == 'quick' else 5):
-        p, q = rprime(rng, bits), rprime(rng, bits)
-        n = p * q
-        p0 = (p >> u1) << u1
-        q0 = (q >> u2) << u2
-        f = sympy.Poly((p0 + x1) * (q0 + x2), modulus=n)
-        modn_case(f, n, [2 ** u1, 2 ** u2], m, 'real', [p - p0, q - q0],
-                  'modn-bivariate-m%d-%dbit-unknown-%d' % (m, bits, u1 + u2),
-                  modn_gate(bits, u1, u2, m))
+      fam = modn_family(bits, u1, u2, m)
+      e = gate_entry(fam) if modn_gate(bits, u1, u2, m) else None
+      for i_ in range(min(reps, e['corpus_instances']) if e is not None else 0):
+        f, bounds, planted, p, q, n = modn_instance(corpus_rng(fam, i_), bits, u1, u2, sympy, x1, x2)
+        modn_case(f, n, bounds, m, 'real', planted, fam, 'corpus')
+      for _ in range(reps):
+        f, bounds, planted, p, q, n = modn_instance(rng, bits, u1, u2, sympy, x1, x2)
+        p0, q0 = p - planted[0], q - planted[1]
+        modn_case(f, n, bounds, m, 'real', planted, fam, 'fresh' if (e is not None and fresh_rate(fam) is not None) else None)
         # adversarial sympy.solve: wrong candidates first, then (sometimes) a true root
         cands = []
         for _ in range(rng.randrange(0, 3)):
@@ -1023,18 +1165,39 @@ def corr_small_roots(rep, rng, tier):
   rep.absorb(bng, bng.run())
 
   rep.extra['planted_root_found'] = {k: '%d/%d' % tuple(v) for k, v in sorted(stats.items())}
+  thr = fresh_miss_threshold(gate['lam']) if gate['fresh_runs'] else 1
+  meas = gate_measurement()
   rep.extra['planted_root_gate'] = dict(
       region=PLANTED_ROOT_GATE, gated_runs=gate['runs'], gated_misses=len(gate['misses']),
       gated_families=sorted(gate['families']),
+      measurement=dict(file=os.path.relpath(GATE_MEASUREMENT_FILE, fw.VERIF), written=meas.get('written'),
+                       families=len(meas.get('families', {})),
+                       instances=sum(e.get('instances', 0) for e in meas.get('families', {}).values()),
+                       misses=sum(e.get('misses', 0) for e in meas.get('families', {}).values())),
+      fresh=dict(runs=gate['fresh_runs'], misses=len(gate['fresh_misses']),
+                 expected_misses_upper_bound=round(gate['lam'], 6), violation_threshold=thr,
+                 rule='sum over the fresh gated instances of poisson_upper(k_family)/N_family (95 % upper bound of the miss '
+                      'rate after k misses in N measured instances; 3/N for k = 0) = expected_misses_upper_bound; the run is a '
+                      'violation when misses >= the smallest t with P[Poisson >= t] < 1e-4; families with a bound above 5e-4 '
+                      'are statistics only (their fixed corpus stays gated)',
+                 recorded_misses=gate['fresh_misses'][:10]),
       outside='families tagged :stat in planted_root_found are statistics only (margin below '
-              'the gate or beyond the lattice bound)',
+              'the gate, beyond the lattice bound, or no recorded measurement of that family)',
       m2='multivariate_modp with m = 2 never finds a planted root (0/1500 measured): dropped '
          'from the planted-root families')
-  for miss in gate['misses']:
+  viol = list(gate['misses'])
+  if len(gate['fresh_misses']) >= thr:
+    viol += gate['fresh_misses']
+  elif gate['fresh_misses']:
+    rep.notes.append('planted-root gate: %d fresh miss(es) inside the gated region, below the violation threshold %d '
+                     '(consistent with the recorded measurement at the 1e-4 level; replay in '
+                     'extra.planted_root_gate.fresh.recorded_misses): %s' % (
+                         len(gate['fresh_misses']), thr, [m_['family'] for m_ in gate['fresh_misses']]))
+  for miss in viol:
     rep.violations.append(dict(
         op='sr.planted_root', line='%s %s' % (miss['fn'], miss['family']),
-        what='planted small root NOT found inside the gated region (%s): %s planted=%r returned=%r'
-             % (miss['family'], miss['fn'], miss.get('planted'), miss.get('returned')),
+        what='planted small root NOT found inside the gated region (%s, %s): %s planted=%r returned=%r'
+             % (miss['family'], miss['source'], miss['fn'], miss.get('planted'), miss.get('returned')),
         impl=repr(miss.get('returned')), model=repr(miss.get('planted')), info=miss))
   rep.extra['small_roots_false_roots_accepted'] = dict(count=len(d9), examples=d9[:6])
   if nonint:
@@ -1051,8 +1214,91 @@ def corr_small_roots(rep, rng, tier):
             e.get('coeffs', e.get('monomials')), e.get('b'), e.get('k'), e['root'], e['y']))
 
 
+def replay_planted_root(doc):
+  """`./check C19 --replay` of a planted-root miss (op sr.planted_root): the stored polynomial, bounds and parameter
+  through the REAL finder; exit 1 iff the planted root is missed again."""
+  import sympy
+  from paranoid_crypto.lib import small_roots as sr
+
+  def I(v):
+    return int(v, 16) if isinstance(v, str) else int(v)
+  info = doc.get('info') or {}
+  fn = info.get('fn')
+  planted = info.get('planted')
+  if fn == 'univariate_modp':
+    x = sympy.Symbol('x')
+    n = I(info['p']) * I(info['q'])
+    f = sympy.Poly(sum(I(c) * x ** i for i, c in enumerate(info['coeffs'])), x, modulus=n)
+    r = sr.univariate_modp(f, I(info['b']), I(info['k']))
+    got, want = (None if r is None else int(r)), I(planted)
+  elif fn in ('multivariate_modp', 'multivariate_modn'):
+    x1, x2 = sympy.symbols('x1, x2')
+    n = I(info['n']) if 'n' in info else I(info['p']) * I(info['q'])
+    f = sympy.Poly(sum(I(row[0]) * x1 ** I(row[1]) * x2 ** I(row[2]) for row in info['monomials']), x1, x2, modulus=n)
+    r = getattr(sr, fn)(f, [I(b) for b in info['bounds']], I(info['m']))
+    got, want = (None if r is None else [int(v) for v in r]), [I(v) for v in planted]
+  else:
+    print('replay: not a planted-root record')
+    return 2
+  print('replay: %s (%s, %s) planted %r -> returned %r' % (fn, info.get('family'), info.get('source'), want, got))
+  if got != want:
+    print('VIOLATION property=C19 planted small root not found inside the gated region')
+    return 1
+  print('replay: not reproduced on the current tree (the planted root is found)')
+  return 0
+
+
+# known finding D26: planted roots INSIDE the margin that the real multivariate finders miss (recorded by
+# harness/measure_c19_gate.py; (fn, bits, p, q, u1, u2, m)).  Deterministic replays.
+D26_REPLAYS = [
+    ('multivariate_modp', 64, 0xcf78ad05a375191f, 0xa16497e160329859, 4, 5, 3),
+    ('multivariate_modn', 128, 0xc60ab3f7d6137633ca625f454162d777, 0xd7cce215da545b1e5152849dc64d15f1, 37, 38, 1),
+    ('multivariate_modn', 96, 0xa3cabdf206c897117e0c5c21, 0xdf25f52b0c9d5e1e60399a3f, 27, 27, 1),
+]
+D26_WHAT = ('small_roots.multivariate_modp / multivariate_modn return None on planted roots well inside their bound: '
+            'multivariate_modp(p0 + x1*2^l + x2 mod n, [2^4, 2^5], 3), n = 0xcf78ad05a375191f * 0xa16497e160329859 (64-bit primes, '
+            'planted (12, 31)); multivariate_modn((p0+x1)(q0+x2) mod n, [2^37, 2^38], 1) for the 128-bit primes '
+            '0xc60ab3f7d6137633ca625f454162d777, 0xd7cce215da545b1e5152849dc64d15f1 (roots of 35 and 37 bits); about 1e-4 .. 4e-4 of the '
+            'instances of these families, independent of the margin (harness/corpus/c19_gate_measurement.json); no miss of '
+            'univariate_modp in 480 000 measured instances')
+
+
+def d25_probe():
+  import sympy
+  from paranoid_crypto.lib import small_roots as sr
+  x1, x2 = sympy.symbols('x1, x2')
+  out = []
+  for fn, bits, p, q, u1, u2, m in D26_REPLAYS:
+    n = p * q
+    if fn == 'multivariate_modp':
+      known = bits - u1 - u2
+      lx1 = known + u2
+      p0 = ((p >> u2) % 2 ** known) << u2
+      f, planted = sympy.Poly(p0 + x1 * 2 ** lx1 + x2, modulus=n), [p >> lx1, p % 2 ** u2]
+    else:
+      p0, q0 = (p >> u1) << u1, (q >> u2) << u2
+      f, planted = sympy.Poly((p0 + x1) * (q0 + x2), modulus=n), [p - p0, q - q0]
+    try:
+      r = getattr(sr, fn)(f, [2 ** u1, 2 ** u2], m)
+      r = None if r is None else [int(v) for v in r]
+    except Exception as e:  # noqa
+      r = 'raised %r' % (e,)
+    out.append((fn, bits, (u1, u2), m, planted, r, r == planted))
+  return out
+
+
 def known_findings(rep):
-  """fixed replay of D9 through the real univariate_modp with the real LLL."""
+  """fixed replays: D26 (planted roots inside the margin that the multivariate finders miss) and D9 through the
+  real univariate_modp with the real LLL."""
+  import framework as _fw
+  res = d25_probe()
+  missed = [t for t in res if not t[-1]]
+  rep.extra['d25_probe'] = [dict(fn=t[0], bits=t[1], unknown_bits=list(t[2]), m=t[3], found=t[-1]) for t in res]
+  listed = any(f.get('id') == 'D26' for f in _fw.load_known_findings())
+  if missed:
+    _known_or_violation(rep, 'D26', 'D26 %s; %d of %d replays reproduce' % (D26_WHAT, len(missed), len(res)))
+  elif listed:
+    rep.notes.append('listed finding D26 no longer reproduces on its replay inputs')
   import sympy
   from paranoid_crypto.lib import small_roots as sr
   x = sympy.Symbol('x')
